@@ -303,6 +303,7 @@ def run(P, R):
             'Commander.next calls after() under %s' % [sorted(tuple(f) for f in fm.at(c)) for c in ac])
 
     shared.enum_classes(P, R, r5, only=('starting_failure_strategy',))
+    shared.strategy_defaults(P, R, r5, 'starting_failure_strategy')
 
     # ---------------------------------------------------------------- R6
     r6 = R.rule('R6', 'must-call in branch', 'every give-up path reports the failure: no resource -> fail_command + '
@@ -323,7 +324,9 @@ def run(P, R):
     u = P.unit('ApplicationJobs.on_instances_invalidation')
     fm = factmap(u)
     pf = [c for c in own_nodes(u.node) if isinstance(c, ast.Call) and call_text(c) == 'self.process_failure']
-    ok = len(pf) == 1 and ('command.identifier in invalidated_identifiers', True) in {tuple(f) for f in fm.at(pf[0])}
+    # (exactly that fact: a command whose request was lost with the instance is a starting failure whether or not the
+    # process had already been seen running there - it is still STOPPED when the request never arrived)
+    ok = len(pf) == 1 and {(f[0], f[1]) for f in fm.at(pf[0])} == {('command.identifier in invalidated_identifiers', True)}
     R.check(r6, ok, 'host lost: starting failure strategy applied', 'giveup|invalidation', u.loc(),
             'on_instances_invalidation does not call process_failure for the commands of the lost instances')
     shared.request_stamp(P, R, r6)
